@@ -49,6 +49,7 @@ def parseArg (t : String) : Option Arg :=
   | ['N'] => some .nonIter
   | 'L' :: r => (parseMembers (String.ofList r)).map .list
   | 'T' :: r => (parseMembers (String.ofList r)).map .tuple
+  | 'G' :: r => (parseMembers (String.ofList r)).map .tuple   -- a one-shot iterator: iterable, not a list
   | 'H' :: r =>          -- `H<k>=<members>`: caller-side list object k; to the model it is just a list
     match (String.ofList r).splitOn "=" with
     | [k, ms] => if k.toNat?.isSome then (parseMembers ms).map .list else none
